@@ -27,6 +27,7 @@ PROP = {  # commit subject keyword -> property
     "name the fourth accumulator a4": "C07", "orcc --compat below 0.4.6.1": "C07",
     "NEON 16-bit accumulator reduction": "C12",
     "operand named nan/inf": "C15",
+    "prefixed loadX/storeX read and wrote the wrong elements": "C02", "__sync implementation of OrcOnce": "C08",
     "kept the previous code attached": "C05", "emitters wrote past the 64 KiB": "C05", "literal-pool labels were allocated twice": "C05",
     "zero or negative size": "C05", "flag bits reserved for the compiler": "C05",
     "written in hex with the top bit set": "C15", "declared with .const under its own name": "C15", "repeats an existing constant": "C15",
